@@ -74,9 +74,14 @@ def run(rep, tier, seed):
     cases = [{"k": f"k{j}", "xml": xml, "cfg": cfg, "threads": 3, "reps": 2} for j, (kind, xml, cfg) in enumerate(ks)]
     binary = vlib.build_runner()
     runs = []
+    # the function itself: every key in a fresh process of its own (no history)
+    runs.append(vlib.run_isolated([dict(c, threads=0, reps=0) for c in cases], binary=binary))
     for pidx in range(nproc):
-        # one fresh process per run (procs=1 keeps every case of the run in the same process)
-        runs.append(vlib._run_chunk(binary, cases, 60000, 4096))
+        # one process per run, the keys in a different order each time: the result may
+        # not depend on what the process did before
+        order = list(cases)
+        random.Random(seed * 1000 + pidx).shuffle(order)
+        runs.append(vlib._run_chunk(binary, order, 60000, 4096))
     for j, (kind, xml, cfg) in enumerate(ks):
         key = frontc.key_of(xml, cfg)
         rep.case(key)
